@@ -239,7 +239,7 @@ fn dump_gcc(out: &str) -> i32 {
     for version in [0x00080001u32, 0x00080004, 0x00080005, 0x0008000f, 0, 0xffffffff].iter() {
         for core_opt in 0..3u8 { for sec in [false, true].iter() { for order in orders.iter() {
             for chans in [vec![], vec![1004u16], vec![1004, 1005], vec![1004, 1005, 1006], vec![0xffff, 0, 1003]].iter() {
-                let b = rp::ScBlocks { version: *version, core_opt, requested_protocols: 1, with_security: *sec, order: order.iter().map(|s| s.to_string()).collect(), io_channel: 1003, channels: chans.clone() };
+                let b = rp::ScBlocks { version: *version, core_opt, requested_protocols: 1, with_security: *sec, order: order.iter().map(|s| s.to_string()).collect(), io_channel: 1003, channels: chans.clone() , max_pdu: 0 };
                 let enc = rp::gcc_conference_create_response(&rp::gcc_server_blocks(&b));
                 writeln!(o, "{}", json!({"enc": enc})).unwrap();
             }
